@@ -116,10 +116,10 @@ def main():
         "setup_cmd": "./run setup",
         "hooks": {
             "guard": "deadpool_verif",
-            "enable": "RUSTFLAGS=\"--cfg deadpool_verif\" (set by /verif/harness/.cargo/config.toml for every harness build; the repository crates are path dependencies, so each check rebuilds them from /repo's working tree)",
+            "enable": "RUSTFLAGS=\"--cfg deadpool_verif\" (set by /verif/harness/.cargo/config.toml for every harness build; the repository crates are path dependencies, so each check rebuilds them from /repo's working tree). The first two hook commits only add lines; the third replaces `Mutex` in the two `use std::sync::{..}` lists of src/managed/mod.rs and src/unmanaged/mod.rs by a cfg-selected import (std::sync::Mutex with the guard off, a wrapper whose lock() is a schedule point with it on), which is why add_only is false",
             "baseline_off_cmd": "/verif/tools/baseline_off.sh",
             "source_commits": hook_shas,
-            "add_only": True,
+            "add_only": False,
         },
         "engines": [
             {"name": e, "path": ENGINES[e][0], "serves_properties": [p for p in props if p in CHECKS and CHECKS[p][0] == e], "kind_free_text": ENGINES[e][1]}
